@@ -1,5 +1,5 @@
-(* C11 — Schema-less decoding is lossless.  The canonical domain `any_ok` (Proofs/AnyP.v) is stated on abstract values of the token grammar: scalar leaves of every width (no NaN payloads), Nil, NaN, strings, bytes, arrays, tuples of at most 50 items, objects with distinct exported identifier field names and non-Nil field values, maps keyed by scalar leaves in strictly ascending order.  Type names of registered types are not in the proved domain (they are covered by the correspondence: every generated stream marshalled from catalogue values of registered types is decoded into `any`, re-marshalled and compared, in Go and in the Coq model). *)
-From SbModel Require Import Model.Marshal Model.Unmarshal Spec.LexOrder Proofs.UnmarshalP Proofs.AnyP.
+(* C11 — Schema-less decoding is lossless.  The canonical domain `any_ok` (Proofs/AnyP.v) is stated on abstract values of the token grammar: scalar leaves of every width (no NaN payloads), Nil, NaN, strings, bytes, arrays, tuples of at most 50 items, objects with distinct exported identifier field names and non-Nil field values, maps keyed by scalar leaves in strictly ascending order.  Type names of registered types are not in the proved domain (they are covered by the correspondence: every generated stream marshalled from catalogue values of registered types is decoded into `any`, re-marshalled and compared, in Go and in the Coq model).  Registered names (Proofs/AnyRegP.v): any_ok_reg R v extends the schema-less domain by `Named n w` nodes at any depth (array items, tuple items, object field values, map values, the top of the stream) whose name the registry maps to a type t and whose sub-stream is the marshalled stream of a typed value of t in the typed round-trip domain (reg_typed); resurrected R v g says that g is the decoded value and every Named node decodes to an interface value whose dynamic type is EXACTLY the registered type. *)
+From SbModel Require Import Model.Marshal Model.Unmarshal Spec.Conform Spec.LexOrder Proofs.UnmarshalP Proofs.AnyP Proofs.RoundTripFullP Proofs.AnyRegP.
 Local Open Scope nat_scope.
 
 (* unmarshalling a canonical stream into an untyped target and marshalling the result again yields the identical token stream (widths, bytes versus strings, tuples, key types and nesting are part of token equality) *)
@@ -83,6 +83,72 @@ Theorem c11_unsorted_map_edge  :
     Ok [T KMap VNone; T KInt (VI WNat 1); T KNil VNone; T KInt (VI WNat 2); T KNil VNone; T KMapEnd VNone].
 Proof. exact (any_unsorted_map_normalized ). Qed.
 
+(* type-name prefixes of registered types resurrect values of exactly those types: the decoded interface value has dynamic type t itself, an equivalent content, and re-marshals to the identical stream *)
+Theorem c11_registered_resurrects pf o R n depr u x ts rest :
+  let t := TNamed n true depr u in
+  reg_lookup R n = Some t -> wf_ty t = true -> ty_ok t = true -> has_type t x = true -> dom R t x ->
+  marshal default_opts t x = Ok ts ->
+  exists f x', unm pf f o R TAny (GAny None) (ts ++ rest) = Ok (GAny (Some (t, x')), rest) /\
+               equiv t x x' /\ marshal default_opts TAny (GAny (Some (t, x'))) = Ok ts.
+Proof. exact (any_registered_resurrects pf o R n depr u x ts rest). Qed.
+
+(* one result for every sufficient fuel *)
+Theorem c11_registered_resurrects_stable pf o R n depr u x ts rest :
+  let t := TNamed n true depr u in
+  reg_lookup R n = Some t -> wf_ty t = true -> ty_ok t = true -> has_type t x = true -> dom R t x ->
+  marshal default_opts t x = Ok ts ->
+  exists x', equiv t x x' /\ marshal default_opts TAny (GAny (Some (t, x'))) = Ok ts /\
+             forall f, (2 * fsz x + length ts + 2 <= f)%nat ->
+               unm pf f o R TAny (GAny None) (ts ++ rest) = Ok (GAny (Some (t, x')), rest).
+Proof. exact (any_registered_resurrects_stable pf o R n depr u x ts rest). Qed.
+
+(* registered values NESTED at any depth of an untyped stream: decode, re-marshal = identity, and every named position holds a value of exactly the registered type *)
+Theorem c11_reg_roundtrip pf o R v rest :
+  any_ok_reg R v ->
+  exists f g, unm pf f o R TAny (GAny None) (flatten v ++ rest) = Ok (g, rest) /\
+              marshal default_opts TAny g = Ok (flatten v) /\ resurrected R v g.
+Proof. exact (any_reg_roundtrip_resurrected pf o R v rest). Qed.
+
+Theorem c11_reg_roundtrip_stable pf o R v rest :
+  any_ok_reg R v ->
+  exists g, resurrected R v g /\ marshal default_opts TAny g = Ok (flatten v) /\
+            exists f0, forall f, (f0 <= f)%nat -> unm pf f o R TAny (GAny None) (flatten v ++ rest) = Ok (g, rest).
+Proof. exact (any_reg_roundtrip_stable pf o R v rest). Qed.
+
+(* what `resurrected` says at a named position *)
+Theorem c11_resurrected_named R n w g :
+  resurrected R (Named n w) g ->
+  exists t x', g = GAny (Some (t, x')) /\ reg_lookup R n = Some t /\ reg_name t = Some n /\
+               marshal default_opts t x' = Ok (flatten (Named n w)).
+Proof. exact (resurrected_named R n w g). Qed.
+
+(* the domain with registered names contains the one without *)
+Theorem c11_domain_extends R v :
+  any_ok R v -> any_ok_reg R v.
+Proof. exact (any_ok_reg_of_any_ok R v). Qed.
+
+(* an unregistered name is erased: such a stream does not round-trip (marshalling never produces it) *)
+Theorem c11_unregistered_name_lost pf o R n v rest f :
+  reg_lookup R n = None -> any_ok R v -> (length (flatten v) < f)%nat ->
+  unm pf f o R TAny (GAny None) (flatten (Named n v) ++ rest) = Ok (dec v, rest) /\
+  marshal default_opts TAny (dec v) = Ok (flatten v) /\
+  flatten v <> flatten (Named n v).
+Proof. exact (any_unregistered_name_lost pf o R n v rest f). Qed.
+
+(* non-vacuity: []any{R1{1,"s"}, 5, R1{2, R1{3,nil}}} with R1 registered *)
+Theorem c11_reg_example  :
+  forall pf o rest,
+  exists f g, unm pf f o RegR1 TAny (GAny None) (ex_reg_ts ++ rest) = Ok (g, rest) /\
+              marshal default_opts TAny g = Ok ex_reg_ts /\
+              exists gs t0 x0 t2 x2, g = GAny (Some (TSlice TAny, GList false gs)) /\
+                nth_error gs 0 = Some (GAny (Some (t0, x0))) /\ t0 = R1 /\
+                nth_error gs 2 = Some (GAny (Some (t2, x2))) /\ t2 = R1.
+Proof. exact (ex_reg_thm ). Qed.
+
+Theorem c11_reg_example_ok  :
+  any_ok_reg RegR1 ex_reg_v.
+Proof. exact (ex_reg_ok ). Qed.
+
 Print Assumptions c11_any_roundtrip.
 Print Assumptions c11_any_decodes.
 Print Assumptions c11_any_remarshals.
@@ -97,3 +163,12 @@ Print Assumptions c11_rejects_max.
 Print Assumptions c11_rejects_ref.
 Print Assumptions c11_unregistered_name_dropped.
 Print Assumptions c11_unsorted_map_edge.
+Print Assumptions c11_registered_resurrects.
+Print Assumptions c11_registered_resurrects_stable.
+Print Assumptions c11_reg_roundtrip.
+Print Assumptions c11_reg_roundtrip_stable.
+Print Assumptions c11_resurrected_named.
+Print Assumptions c11_domain_extends.
+Print Assumptions c11_unregistered_name_lost.
+Print Assumptions c11_reg_example.
+Print Assumptions c11_reg_example_ok.
